@@ -100,6 +100,24 @@ def primary_cases():
         for base in (0, 0x4, 0x40000 | 0x20):
             yield mk(dict(primary='flags=%#x (reserved bit)' % (base | rbit)), flags=base | rbit)
     yield mk(dict(primary='flags=%#x (all reserved bits)' % sum(RESERVED_BITS)), flags=sum(RESERVED_BITS))
+    # a received canonical block numbered 0 (the primary block's number): whatever is forwarded has unique numbers >= 1
+    for typ in (199, B.T_HOP_COUNT):
+        (lab, b) = mk(dict(primary='extension block of type %d numbered 0' % typ, unk=(typ == 199), not_rfc9171=True))
+        if typ == 199:
+            b['blocks'].insert(0, dict(type=199, num=0, flags=0, crc_type=1, data=b'\x01\x02'))
+        else:
+            for blk in b['blocks']:
+                if blk['type'] == B.T_HOP_COUNT:
+                    blk['num'] = 0
+        yield (lab, b)
+    # an administrative record in transit (status report of another node, status times 0 = no clock there,
+    # and real times): the payload octets are not ours to rewrite
+    for (times, frag) in (((0, 0, None, None), None), ((700000000123, None, None, 0), None), ((0, None, None, None), (0, 50))):
+        status = [(t is not None, t) for t in times]
+        (lab, b) = mk(dict(primary='status report in transit, times %r fragment %r' % (times, frag)), flags=B.FLAG_ADMIN, report_to='dtn:none',
+                      src='dtn://other/')
+        b['blocks'][-1]['data'] = B.enc_status_report(status, 0, 'dtn://elsewhere/app', (0, 9) if times[0] == 0 else (700000000001, 3), frag=frag)
+        yield (lab, b)
     for bflags in (0x80, 0x81, 0x28, 0x1000001):
         (lab, b) = mk(dict(primary='unknown block with block flags %#x' % bflags, unk=True))
         b['blocks'].insert(0, dict(type=199, num=5, flags=bflags, crc_type=1, data=b'\x01\x02'))
@@ -125,6 +143,8 @@ def check_case(label, bundle, mtu, world=None):
         v['case'] = dict(label=label, received=data.hex(), mtu=mtu, sent=[d.hex() for d in world.sent()[before:]],
                          history=getattr(world, 'c11_history', []))
         out.append(v)
+    if label.get('not_rfc9171') and world.api_errors and not world.escaped and len(world.sent()) == before:
+        return out      # refused while being read in: nothing of it left the node
     if world.escaped or world.api_errors:
         err = (world.escaped or world.api_errors)[-1]
         bad('exception-while-forwarding', dict(exc=err[0]), '%s: %s' % (err[0], err[2] if world.escaped else err[1]))
@@ -137,10 +157,14 @@ def check_case(label, bundle, mtu, world=None):
         except B.Malformed as err:
             bad('forwarded-octets-not-rfc9171', dict(), '%s: %s' % (err, octets.hex()))
             return out
-        if dec['primary']['flags'] & B.FLAG_ADMIN:
+        if dec['primary']['flags'] & B.FLAG_ADMIN and dec['primary']['src'] == NODE:
             reports.append(dec)
         else:
             fwd.append(dec)
+    if not fwd and label.get('not_rfc9171'):
+        # the received octets break a rule of RFC 9171 themselves (block number 0): refusing them is fine,
+        # forwarding them with the broken numbering is not (judged below when something was forwarded)
+        return out
     if len(fwd) != 1:
         bad('not-forwarded-exactly-once', dict(count=len(fwd)), 'convergence layer got %d data bundles' % len(fwd))
         return out
